@@ -3,6 +3,7 @@ import re
 from cfg import cfg_of
 from flow import Taint, Tracker, backward, callee_matches, field_reads, op_local, prep
 from rules import CallGuard, CallSink, CmpGuard, RetSink, AggSink, compare_sites
+from rules import returned_directly
 from rules import PL
 from rules import P as PL_fn
 from props.C03 import PV, PUT, param_seeds
@@ -111,8 +112,9 @@ def merge_rules(R, pfx="C07"):
         R.inst(pfx + ".tx.filters", "K6 flows-to (cut)", "every stored transaction from the input passes the key filter and the verify filter", len(vals), ok, detail)
         # union with the local set through a BTreeSet
         loc = call_results([PV + "get_local_transactions"])(tx)
-        ext = [b for b in tx.blocks if b["term"]["k"] == "call" and (b["term"]["ncallee"] or "").endswith("BTreeSet<T, A> as core::iter::traits::collect::Extend<T>>::extend")]
-        oku = bool(ext) and bool(loc) and all(op_local(b["term"]["args"][1]) in ta.closure(loc) for b in ext) and bool(vals) and op_local(vals[0][2]) in ta.closure(loc)
+        from rules import union_sites
+        ext = sorted(union_sites(F, tx, loc)[0]) if loc else []      # `set.extend(local)` or `for t in local { set.insert(t) }`
+        oku = bool(ext) and bool(loc) and bool(vals) and op_local(vals[0][2]) in ta.closure(loc)
         if not oku:
             R.viol(pfx + ".tx.union", "local-union", "the stored set is not the union (BTreeSet::extend) of validated input and get_local_transactions", tx, tx.lines[0])
         R.inst(pfx + ".tx.union", "K6 flows-to", "stored = validated ∪ local (BTreeSet, order/duplication independent)", len(ext), oku)
@@ -386,7 +388,7 @@ def transaction_rules(R, pfx):
         sig = Taint(vf).closure({d for d, r, p in field_reads(vf, "signature")})
         msg = ta.closure(call_results([TX + "::bytes_for_signature"])(vf))
         vs = [b for b in vf.blocks if b["term"]["k"] == "call" and callee_matches(b["term"], ["blsttc::PublicKey::verify"])]
-        ok = bool(vs) and all(op_local(b["term"]["args"][0]) in own and op_local(b["term"]["args"][1]) in sig and op_local(b["term"]["args"][2]) in msg and b["term"]["d"] == [0] for b in vs)
+        ok = bool(vs) and all(op_local(b["term"]["args"][0]) in own and op_local(b["term"]["args"][1]) in sig and op_local(b["term"]["args"][2]) in msg and returned_directly(vf, b["term"]["d"]) for b in vs)
         if not ok:
             R.viol(pfx + ".tx.verify", "tx-verify", "Transaction::verify is not owner.verify(signature, bytes_for_signature())", vf, vf.lines[0])
         R.inst(pfx + ".tx.verify", "K6 flows-to", "verify() = owner.verify(signature, bytes_for_signature())", len(vs), ok)
